@@ -27,7 +27,8 @@ diffs against the real functions on weakened arguments: `sound_length`, `sound_c
 `sound_sort` (length bounds), `sound_strlen` (prefix-derived lower bound), `sound_zipmap`,
 `sound_hasindex`, `sound_index`, `sound_contains_partial`, `sound_lookup_map_partial`, `sound_lookup_object`,
 `sound_concat_partial`, and the full-strength statement
-that is FALSE of the code as `SoundSetProduct` with `sound_setproduct_counterexample` (the recorded finding).
+that is FALSE of the code as `SoundSetProduct` / `SoundSetHasElement` with `sound_setproduct_counterexample` /
+`sound_sethaselement_counterexample` (the recorded findings, as theorems about the model).
 Side conditions are explicit and decidable on instances; each theorem has a joint witness at the end of the
 file.  External libraries enter as parameters with named laws (`EnvConvertSound`, the segmentation law of
 `sound_strlen`), probed on the real library by the harness.
@@ -1045,6 +1046,46 @@ theorem sound_lookup_object (E : Stdlib.Env) (hE : EnvConvertSound E) (om wm ok 
     have := D12b.leaf_eq hmwk hmok h2 hck (hkn wk (by simp)) hleaf
     subst this
     exact D12b.lookup_obj_implSound E hE om wm wk od wd hobj h1 h3 hmom hmwm hmwk hs hcm hcd
+
+/-- the full-strength statement for `sethaselement` — FALSE of the code (recorded finding
+`result-not-covered:haselement-false-for-partly-unknown-element:SetHasElementFunc`, a consequence of the C01
+finding about `Value.HasElement`).  What holds instead: C01 `sound_hasElement_partial` (set and needle kept or
+replaced as a whole) — at the level of `Call` that is the framework's short-circuit, both parameters refusing
+unknown arguments. -/
+def SoundSetHasElement : Prop :=
+  ∀ (E : Stdlib.Env) (os ws : List Value) (r : Value), (∀ a ∈ os, a.whollyKnown = true) →
+    (∀ a ∈ os, a.containsMarked = false) → (∀ a ∈ ws, a.containsMarked = false) → coversAll ws os = true → TyKeptS ws os →
+    (callUnrefined Stdlib.setHasElementSpec Stdlib.setHasElementType (Stdlib.setHasElementImpl E) os).1 = .ok r →
+    ∃ r', (callUnrefined Stdlib.setHasElementSpec Stdlib.setHasElementType (Stdlib.setHasElementImpl E) ws).1 = .ok r' ∧
+      Covers r' r = true
+
+/-- a hash oracle under which a partly unknown value hashes differently from every wholly known one (as the real
+`Value.Hash` does: the hash text of an unknown member is `?`) -/
+def sheEnv : Stdlib.Env := { hash := fun _ p => if p.whollyKnown then some 1 else some 2 }
+def sheSet : Value := ⟨.set (.list .number), .sset [1] [.seq [.n (.fin false 1 1 64), .n (.fin false 0 0 64)]]⟩
+def sheNeedle : Value := ⟨.list .number, .seq [.n (.fin false 1 1 64), .n (.fin false 0 0 64)]⟩
+def sheNeedleW : Value := ⟨.list .number, .seq [.unk .unref, .n (.fin false 0 0 64)]⟩
+
+/-- `sethaselement({[2,0]}, [2,0])` is True; with the first member of the needle unknown the answer is a definite
+False: the needle is looked up by its hash -/
+theorem sound_sethaselement_counterexample :
+    coversAll [sheSet, sheNeedleW] [sheSet, sheNeedle] = true ∧
+    (callUnrefined Stdlib.setHasElementSpec Stdlib.setHasElementType (Stdlib.setHasElementImpl sheEnv) [sheSet, sheNeedle]).1 =
+      .ok (Value.boolVal true) ∧
+    (callUnrefined Stdlib.setHasElementSpec Stdlib.setHasElementType (Stdlib.setHasElementImpl sheEnv) [sheSet, sheNeedleW]).1 =
+      .ok (Value.boolVal false) ∧
+    Covers (Value.boolVal false) (Value.boolVal true) = false :=
+  ⟨by decide, by rfl, by rfl, by decide⟩
+
+theorem soundSetHasElement_false : ¬ SoundSetHasElement := by
+  intro h
+  obtain ⟨h1, h2, h3, h4⟩ := sound_sethaselement_counterexample
+  obtain ⟨r', hr', hc⟩ := h sheEnv [sheSet, sheNeedle] [sheSet, sheNeedleW] _ (by decide) (by decide) (by decide) h1
+    ⟨rfl, rfl, trivial⟩ h2
+  rw [h3] at hr'
+  cases hr'
+  rw [h4] at hc
+  cases hc
 
 /-! ### the hypotheses are satisfiable -/
 
